@@ -8,13 +8,25 @@ pub struct MinStats {
     pub executions: u64,
 }
 
-fn fails_same(check: Check, t: &Trace, class: &(String, String, String), n: &mut u64) -> Option<Violation> {
+pub type RunFn<'a> = &'a dyn Fn(&Trace) -> Option<Violation>;
+
+struct Ctx<'a> {
+    run: RunFn<'a>,
+}
+#[derive(Clone, Copy)]
+struct CheckRef<'a>(&'a Ctx<'a>);
+
+fn fails_same(check: CheckRef, t: &Trace, class: &(String, String, String), n: &mut u64) -> Option<Violation> {
     *n += 1;
-    let o = execute(check, t);
-    match o.outcome.violation {
+    match (check.0.run)(t) {
         Some(v) if &v.class() == class => Some(v),
         _ => None,
     }
+}
+
+pub fn minimize(check: Check, t0: &Trace, v0: &Violation) -> (Trace, Violation, MinStats) {
+    let f = move |t: &Trace| execute(check, t).outcome.violation;
+    minimize_with(&f, t0, v0)
 }
 
 fn remap_probe(op: &Op, keep: usize) -> Option<Op> {
@@ -51,7 +63,9 @@ fn probe_index(what: &str) -> Option<usize> {
     rest[..end].parse().ok()
 }
 
-pub fn minimize(check: Check, t0: &Trace, v0: &Violation) -> (Trace, Violation, MinStats) {
+pub fn minimize_with(run: RunFn, t0: &Trace, v0: &Violation) -> (Trace, Violation, MinStats) {
+    let ctx = Ctx { run };
+    let check = CheckRef(&ctx);
     let class = v0.class();
     let mut n = 0u64;
     let mut best = t0.clone();
